@@ -384,3 +384,96 @@ def _move(ex, st, node):
     fs = _fs(st)
     st.env["FS"] = SV(fs.t, z3.Store(fs.z, dst.z, z3.Select(fs.z, src.z)))
     return SV(NONE)
+
+
+# ------------------------------------------------------------------------------------------------------------
+# Rows as records and row streams (C14): row[col] is an (uninterpreted) field value; a Stream is an iterator
+# handle over the fixed row sequence stream_seq(h); its position lives in the ghost map `ghost_cursor`
+# (number of rows already delivered).  next(h) delivers stream_seq(h)[cursor] and advances, or raises
+# StopIteration when cursor == len (the cursor then stays where it is).
+VAL = TAbs("Val")
+STREAM = TAbs("Stream")
+
+_orig_subscript3 = Lib.subscript
+
+
+def _subscript3(self, ex, st, base, idx, node):
+    if base.t == ROW and idx.t == STR:
+        f = ex.uf("row_field", ROW.sort(), STR.sort(), VAL.sort())
+        return SV(VAL, f(base.z, idx.z))
+    return _orig_subscript3(self, ex, st, base, idx, node)
+
+
+Lib.subscript = _subscript3
+
+
+def stream_seq(ex, h):
+    f = ex.uf("stream_seq", STREAM.sort(), TSeq(ROW).sort())
+    return SV(TSeq(ROW), f(h.z))
+
+
+_orig_next = Lib.b_next
+
+
+def _b_next(self, ex, st, node):
+    # peek at the argument type without evaluating twice: evaluate once here and dispatch
+    a = node.args[0]
+    it = ex.ev(st, a)
+    if it.t == STREAM:
+        cur = st.env.get("ghost_cursor")
+        if cur is None:
+            raise Unsupported("next() of a Stream needs the ghost map `ghost_cursor`")
+        sq = stream_seq(ex, it)
+        c = z3.Select(cur.z, it.z)
+        n = ex.seq_len(sq)
+        exhausted = c >= n
+        g = z3.And(*(st.guards + [exhausted])) if st.guards else exhausted
+        st.pending_exc.append((g, "StopIteration"))
+        st.env["ghost_cursor"] = SV(cur.t, z3.Store(cur.z, it.z, z3.If(exhausted, c, c + 1)))
+        ex.used_lib.add("iterator protocol: next(it) delivers the next element of the underlying sequence and "
+                        "advances, or raises StopIteration when it is exhausted (ghost cursor)")
+        return ex.seq_get(sq, c)
+    return self._next_of_value(ex, st, node, it)
+
+
+def _next_of_value(self, ex, st, node, it):
+    a = node.args[0]
+    if not isinstance(it.t, TIter):
+        raise Unsupported("next() of %s" % it.t)
+    sq, p = it.py["seq"], it.py["pos"]
+    exhausted = p >= ex.seq_len(sq)
+    g = z3.And(*(st.guards + [exhausted])) if st.guards else exhausted
+    st.pending_exc.append((g, "StopIteration"))
+    if isinstance(a, ast.Name):
+        st.env[a.id] = SV(it.t, py={"seq": sq, "pos": p + 1})
+    else:
+        raise Unsupported("next() on a non-name iterator expression")
+    return ex.seq_get(sq, p)
+
+
+Lib.b_next = _b_next
+Lib._next_of_value = _next_of_value
+
+
+def b_stream_seq(self, ex, st, node):
+    return stream_seq(ex, ex.ev(st, node.args[0]))
+
+
+def b_keys(self, ex, st, node):
+    d = ex.ev(st, node.args[0])
+    return SV(d.t.keyseq, d.t.keys(d.z))
+
+
+def b_score_of(self, ex, st, node):
+    """spec: score_of(row, column) = float(row[column])"""
+    r, c = ex.ev(st, node.args[0]), ex.ev(st, node.args[1])
+    if isinstance(r.t, TOptT):
+        r = SV(r.t.inner, r.t.val(r.z))
+    f = ex.uf("row_field", ROW.sort(), STR.sort(), VAL.sort())
+    g = ex.uf("float_of_Val", VAL.sort(), z3.RealSort())
+    return SV(REAL, g(f(r.z, c.z)))
+
+
+Lib.b_stream_seq = b_stream_seq
+Lib.b_keys = b_keys
+Lib.b_score_of = b_score_of
